@@ -1,6 +1,7 @@
 import G3d.Proofs.Shoelace
 import G3d.Props.C12
 import G3d.Props.C18
+import G3d.Props.C01Trace
 /-!
 # C01 — the triangles of an ear clipping tile the polygon (vector-area accounting, exact semantics)
 
@@ -15,8 +16,14 @@ Over ℝ, for ANY such sequence of clippings (`Clip`):
   `(v₁ − v₀) × (v₂ − v₁) · n > 0` demands) no cancellation can hide an overlap: for triangles that all lie in the polygon's
   region (the diagonal and no-vertex-inside tests) equal area sums mean they tile it.
 * refinement (C08 identities `split_triangle_area`, `split_edge_area`, `flip_area`) keeps that sum.
-What is not proved: that the diagonal / vertex-inside tests keep every triangle inside the region in floating point, and the
-effect of `sanitize` dropping tolerance-collinear vertices every tenth iteration (known finding C01-area-small); both are
+* `fromPolygon_area` ties this to the code: by `C01Trace.fromPolygon_trace` every `Ok` result of the MODEL of `from_polygon`
+  (generic in the number type) is an `EarTrace` — ears cut at `anchor`, `anchor+1`, `anchor+2` modulo the current length,
+  `sanitize` every tenth iteration, `mark_neighbourhouds`/`constrain` never touching a corner — and over ℝ
+  (`earTrace_area`, via the index form `cyc_erase_ear` of the ear identity) the slots of the returned mesh account for the
+  vector area of the closed merged outline, up to exactly what the `sanitize` calls dropped (`sanLoss`; zero when no
+  `sanitize` changed the outline).  `earTrace_oriented`: all ears are convex corners w.r.t. the outline's normal.
+What is not proved: that the diagonal / vertex-inside tests keep every triangle inside the region, the size of `sanLoss`
+when `sanitize` drops tolerance-collinear vertices (known finding C01-area-small), and floating point; those are
 judged by the exact oracle.
 -/
 namespace G3d.C01
@@ -90,6 +97,241 @@ theorem split_edge_area (a b c : V3 ℝ) (s : ℝ) :
 theorem flip_area (a b c o : V3 ℝ) :
     cyc [a, o, c] + cyc [c, o, b] = cyc [a, b, c] + cyc [b, a, o] := by
   simp only [cyc_triangle]; v3_ring
+
+/-! ## index form of the ear identity, and the tie to the model of `from_polygon` -/
+
+theorem cyc_append_comm (l1 l2 : List (V3 ℝ)) : cyc (l1 ++ l2) = cyc (l2 ++ l1) := by
+  rw [← cyc_rotate_n (l1 ++ l2) l1.length, List.rotate_append_length_eq]
+
+theorem cyc_ear_case1 (l1 l2 : List (V3 ℝ)) (a b c : V3 ℝ) :
+    cyc (l1 ++ a :: b :: c :: l2) = cyc (l1 ++ a :: c :: l2) + cyc [a, b, c] := by
+  rw [cyc_append_comm, cyc_append_comm l1]
+  exact cyc_cut_ear a b c (l2 ++ l1)
+
+theorem cyc_ear_case2 (mid : List (V3 ℝ)) (a b c : V3 ℝ) :
+    cyc (c :: mid ++ [a, b]) = cyc (c :: mid ++ [a]) + cyc [a, b, c] := by
+  have h1 : cyc (c :: mid ++ [a, b]) = cyc ([a, b] ++ c :: mid) := cyc_append_comm (c :: mid) [a, b]
+  have h2 : cyc (c :: mid ++ [a]) = cyc ([a] ++ c :: mid) := cyc_append_comm (c :: mid) [a]
+  rw [h1, h2]
+  exact cyc_cut_ear a b c mid
+
+theorem cyc_ear_case3 (mid : List (V3 ℝ)) (a b c : V3 ℝ) :
+    cyc (b :: c :: mid ++ [a]) = cyc (c :: mid ++ [a]) + cyc [a, b, c] := by
+  have h1 : cyc (b :: c :: mid ++ [a]) = cyc ([a] ++ b :: c :: mid) := cyc_append_comm (b :: c :: mid) [a]
+  have h2 : cyc (c :: mid ++ [a]) = cyc ([a] ++ c :: mid) := cyc_append_comm (c :: mid) [a]
+  rw [h1, h2]
+  exact cyc_cut_ear a b c mid
+
+theorem drop_cons_of_getElem? {β : Type} (l : List β) (i : Nat) (x : β) (h : l[i]? = some x) :
+    l.drop i = x :: l.drop (i + 1) := by
+  obtain ⟨hi, hx⟩ := List.getElem?_eq_some_iff.mp h
+  rw [List.drop_eq_getElem_cons hi, hx]
+
+/-- index form (no wrap-around): `i + 2 < n` -/
+theorem cyc_erase_nowrap (vs : List (V3 ℝ)) (i : Nat) (a b c : V3 ℝ)
+    (h0 : vs[i]? = some a) (h1 : vs[i + 1]? = some b) (h2 : vs[i + 2]? = some c) :
+    cyc vs = cyc (vs.eraseIdx (i + 1)) + cyc [a, b, c] := by
+  have hd : vs.drop i = a :: b :: c :: vs.drop (i + 3) := by
+    rw [drop_cons_of_getElem? vs i a h0, drop_cons_of_getElem? vs (i + 1) b h1, drop_cons_of_getElem? vs (i + 2) c h2]
+  have hi : i < vs.length := (List.getElem?_eq_some_iff.mp h0).1
+  have hv : vs = vs.take i ++ a :: b :: c :: vs.drop (i + 3) := by
+    rw [← hd, List.take_append_drop]
+  have hlen : (vs.take i).length = i := by simp; omega
+  have he : vs.eraseIdx (i + 1) = vs.take i ++ a :: c :: vs.drop (i + 3) := by
+    conv_lhs => rw [hv]
+    rw [List.eraseIdx_append_of_length_le (by omega)]
+    rw [hlen]
+    simp
+  rw [he]
+  conv_lhs => rw [hv]
+  exact cyc_ear_case1 _ _ a b c
+
+/-- `v₂` wraps around: `i + 2 = n` -/
+theorem cyc_erase_wrap2 (vs : List (V3 ℝ)) (i : Nat) (a b c : V3 ℝ) (hn : i + 2 = vs.length) (hi1 : 1 ≤ i)
+    (h0 : vs[i]? = some a) (h1 : vs[i + 1]? = some b) (h2 : vs[0]? = some c) :
+    cyc vs = cyc (vs.eraseIdx (i + 1)) + cyc [a, b, c] := by
+  have hd : vs.drop i = [a, b] := by
+    rw [drop_cons_of_getElem? vs i a h0, drop_cons_of_getElem? vs (i + 1) b h1, List.drop_eq_nil_of_le (by omega)]
+  obtain ⟨i', rfl⟩ : ∃ i', i = i' + 1 := ⟨i - 1, by omega⟩
+  cases vs with
+  | nil => simp at h2
+  | cons x tl =>
+    simp only [List.getElem?_cons_zero, Option.some.injEq] at h2
+    subst h2
+    have hv : x :: tl = x :: tl.take i' ++ [a, b] := by
+      have := List.take_append_drop (i' + 1) (x :: tl)
+      rw [hd] at this
+      simpa using this.symm
+    have hlen : (x :: tl.take i').length = i' + 1 := by
+      simp only [List.length_cons, List.length_take]
+      simp only [List.length_cons] at hn
+      omega
+    have he : (x :: tl).eraseIdx (i' + 1 + 1) = x :: tl.take i' ++ [a] := by
+      conv_lhs => rw [hv]
+      rw [List.eraseIdx_append_of_length_le (by omega)]
+      rw [hlen]
+      simp
+    rw [he]
+    conv_lhs => rw [hv]
+    exact cyc_ear_case2 _ a b x
+
+/-- `v₁` and `v₂` wrap around: `i + 1 = n` -/
+theorem cyc_erase_wrap1 (vs : List (V3 ℝ)) (i : Nat) (a b c : V3 ℝ) (hn : i + 1 = vs.length) (hi2 : 2 ≤ i)
+    (h0 : vs[i]? = some a) (h1 : vs[0]? = some b) (h2 : vs[1]? = some c) :
+    cyc vs = cyc (vs.eraseIdx 0) + cyc [a, b, c] := by
+  have hd : vs.drop i = [a] := by
+    rw [drop_cons_of_getElem? vs i a h0, List.drop_eq_nil_of_le (by omega)]
+  obtain ⟨i', rfl⟩ : ∃ i', i = i' + 2 := ⟨i - 2, by omega⟩
+  match vs, h1, h2, hn, hd, h0 with
+  | x :: y :: tl, h1, h2, hn, hd, h0 =>
+    simp only [List.getElem?_cons_zero, Option.some.injEq] at h1
+    simp only [List.getElem?_cons_succ, List.getElem?_cons_zero, Option.some.injEq] at h2
+    subst h1 h2
+    have hv : x :: y :: tl = x :: y :: tl.take i' ++ [a] := by
+      have := List.take_append_drop (i' + 2) (x :: y :: tl)
+      rw [hd] at this
+      simpa using this.symm
+    have he : (x :: y :: tl).eraseIdx 0 = y :: tl.take i' ++ [a] := by
+      conv_lhs => rw [hv]
+      rfl
+    rw [he]
+    conv_lhs => rw [hv]
+    exact cyc_ear_case3 _ a x y
+
+theorem cyc_single (a : V3 ℝ) : cyc [a] = ⟨0, 0, 0⟩ := by
+  simp [cyc, pathSum_cons2]; v3_ring
+
+theorem cyc_aba (a b : V3 ℝ) : cyc [a, b, a] = ⟨0, 0, 0⟩ := by
+  rw [cyc_triangle]; v3_ring
+
+/-- **cutting the ear at `anchor` (indices modulo the length, as `from_polygon` takes them) removes exactly the ear's
+    vector area from the outline's** — for every non-empty outline (for fewer than three vertices both sides are zero) -/
+theorem cyc_erase_ear (vs : List (V3 ℝ)) (anchor : Nat) (a b c : V3 ℝ) (hn : vs.length ≠ 0)
+    (h0 : vs[anchor % vs.length]? = some a) (h1 : vs[(anchor + 1) % vs.length]? = some b)
+    (h2 : vs[(anchor + 2) % vs.length]? = some c) :
+    cyc vs = cyc (vs.eraseIdx ((anchor + 1) % vs.length)) + cyc [a, b, c] := by
+  have hi : anchor % vs.length < vs.length := Nat.mod_lt _ (by omega)
+  have e1 : (anchor + 1) % vs.length = (anchor % vs.length + 1) % vs.length := by rw [Nat.add_mod]; simp
+  have e2 : (anchor + 2) % vs.length = (anchor % vs.length + 2) % vs.length := by rw [Nat.add_mod]; simp
+  rw [e1] at h1 ⊢
+  rw [e2] at h2
+  generalize anchor % vs.length = i at hi h0 h1 h2
+  by_cases hc1 : i + 2 < vs.length
+  · rw [Nat.mod_eq_of_lt (by omega)] at h1 h2 ⊢
+    exact cyc_erase_nowrap vs i a b c h0 h1 h2
+  · by_cases hc3 : 3 ≤ vs.length
+    · by_cases hc2 : i + 2 = vs.length
+      · have e3 : (i + 2) % vs.length = 0 := by rw [hc2]; exact Nat.mod_self _
+        rw [Nat.mod_eq_of_lt (by omega)] at h1 ⊢
+        rw [e3] at h2
+        exact cyc_erase_wrap2 vs i a b c hc2 (by omega) h0 h1 h2
+      · have hc4 : i + 1 = vs.length := by omega
+        have e3 : (i + 1) % vs.length = 0 := by rw [hc4]; exact Nat.mod_self _
+        have e4 : (i + 2) % vs.length = 1 := by
+          have : i + 2 = 1 + vs.length := by omega
+          rw [this, Nat.add_mod_right]; exact Nat.mod_eq_of_lt (by omega)
+        rw [e3] at h1 ⊢
+        rw [e4] at h2
+        exact cyc_erase_wrap1 vs i a b c hc4 (by omega) h0 h1 h2
+    · -- one or two vertices: everything is degenerate
+      have hl : vs.length = 1 ∨ vs.length = 2 := by omega
+      rcases hl with hl | hl
+      · obtain ⟨x, rfl⟩ := List.length_eq_one_iff.mp hl
+        have : i = 0 := by simpa using hi
+        subst this
+        simp at h0 h1 h2
+        subst h0 h1 h2
+        simp [cyc_single]
+        rw [cyc_aba]; simp [cyc]; v3_ring
+      · obtain ⟨x, y, rfl⟩ := List.length_eq_two.mp hl
+        have : i = 0 ∨ i = 1 := by simp at hi; omega
+        rcases this with rfl | rfl
+        · simp at h0 h1 h2
+          subst h0 h1 h2
+          simp [cyc_single, cyc_pair, cyc_aba]; v3_ring
+        · simp at h0 h1 h2
+          subst h0 h1 h2
+          simp [cyc_single, cyc_pair, cyc_aba]; v3_ring
+
+/-! ## the model's ear clipping accounts for the outline's vector area -/
+
+open G3d.C01T in
+/-- twice the vector area that the `sanitize` calls (every tenth iteration) took away from the outline -/
+def sanLoss : List (List (V3 ℝ) × List (V3 ℝ)) → V3 ℝ
+  | [] => ⟨0, 0, 0⟩
+  | (before, after) :: ss => (cyc before - cyc after) + sanLoss ss
+
+/-- **area accounting for every run of the modelled ear-clipping loop (exact semantics)**: the vector area of the outline it
+    was started on = the summed vector areas of the emitted triangles + what `sanitize` removed -/
+theorem earTrace_area (L : Loop ℝ) (ts : List (V3 ℝ × V3 ℝ × V3 ℝ)) (ss : List (List (V3 ℝ) × List (V3 ℝ)))
+    (h : C01T.EarTrace L ts ss) : cyc L.vertices = triSum ts + sanLoss ss := by
+  induction h with
+  | done L hlen =>
+    obtain ⟨x, y, hxy⟩ := List.length_eq_two.mp hlen
+    rw [hxy, cyc_pair]
+    simp [triSum, sanLoss]; v3_ring
+  | sanitize L L' ts ss _ _ ih =>
+    simp only [sanLoss]
+    rw [ih]
+    v3_ring
+  | ear L anchor v0 v1 v2 ts ss hne h0 h1 h2 _ _ ih =>
+    rw [cyc_erase_ear L.vertices anchor v0 v1 v2 hne h0 h1 h2]
+    simp only [] at ih
+    rw [ih]
+    simp only [triSum]
+    v3_ring
+
+/-- a `sanitize` that dropped nothing took no area -/
+theorem sanLoss_of_unchanged (ss : List (List (V3 ℝ) × List (V3 ℝ))) (h : ∀ p ∈ ss, p.1 = p.2) :
+    sanLoss ss = ⟨0, 0, 0⟩ := by
+  induction ss with
+  | nil => rfl
+  | cons p ss ih =>
+    obtain ⟨b, a⟩ := p
+    have hba : b = a := h (b, a) (by simp)
+    simp only [sanLoss]
+    rw [ih (fun p hp => h p (by simp [hp])), hba]
+    v3_ring
+
+/-- **`from_polygon` over ℝ**: the slots of an `Ok` mesh are exactly the ears cut from the closed merged outline `L`, and
+    their vector areas add up to the outline's minus what `sanitize` dropped; when no `sanitize` changed the outline
+    (in particular: fewer than ten iterations, or no tolerance-collinear vertex ever arises) the sum is exact. -/
+theorem fromPolygon_area (poly : Polygon ℝ) (t' : Mesh ℝ) (h : Mesh.fromPolygon poly = .ok t') :
+    ∃ L0 L ss, poly.tryGetClosedLoop = .ok L0 ∧ L0.close = (L, .ok ()) ∧
+      cyc L.vertices = triSum (C01T.geom t') + sanLoss ss ∧
+      ((∀ p ∈ ss, p.1 = p.2) → triSum (C01T.geom t') = cyc L.vertices) := by
+  obtain ⟨L0, L, ts, ss, h1, h2, htr, hg⟩ := C01T.fromPolygon_trace poly t' h
+  have ha := earTrace_area L ts ss htr
+  refine ⟨L0, L, ss, h1, h2, ?_, ?_⟩
+  · rw [hg]; exact ha
+  · intro hss
+    rw [hg, ha, sanLoss_of_unchanged ss hss]
+    v3_ring
+
+/-- without `sanitize` steps the outline's normal never changes, and **every emitted ear is a convex corner with respect to
+    it**: its vector area has a positive component along the normal, so no two ears can cancel in the sum above -/
+theorem earTrace_oriented (L : Loop ℝ) (ts : List (V3 ℝ × V3 ℝ × V3 ℝ)) (ss : List (List (V3 ℝ) × List (V3 ℝ)))
+    (h : C01T.EarTrace L ts ss) (hss : ss = []) :
+    ∀ t ∈ ts, 0 < (cyc [t.1, t.2.1, t.2.2]).dot L.normal := by
+  induction h with
+  | done L _ => intro t ht; cases ht
+  | sanitize L L' ts ss _ _ _ => cases hss
+  | ear L anchor v0 v1 v2 ts ss _ _ _ _ hconv _ ih =>
+    intro t ht
+    rcases List.mem_cons.mp ht with rfl | ht
+    · apply ear_orientation
+      bool_real_at hconv
+      num_real_at hconv
+      exact hconv
+    · exact ih hss t ht
+
+/-- non-vacuity: the ear-clipping trace of a right triangle in `z = 0` (one ear, then two vertices are left) -/
+example : C01T.EarTrace
+    ({ vertices := [⟨0, 0, 0⟩, ⟨1, 0, 0⟩, ⟨0, 1, 0⟩], normal := ⟨0, 0, 1⟩, closed := true, area := 0.5, perimeter := 0 } : Loop ℝ)
+    [(⟨0, 0, 0⟩, ⟨1, 0, 0⟩, ⟨0, 1, 0⟩)] [] := by
+  refine C01T.EarTrace.ear _ 0 _ _ _ [] [] (by simp) (by simp) (by simp) (by simp) ?_ ?_
+  · bool_real; vec_real; norm_num
+  · exact C01T.EarTrace.done _ (by simp)
 
 end
 end G3d.C01
